@@ -180,8 +180,11 @@ CLAIMED = {
     "C14": {
         "text": 'Coq theorems over the model of qrotate (all accepted axis/angle/shape variants, proved column-wise identical) and subpoint, regenerated from geoloc.py'
                 " on every run: equality with Rodrigues' rotation about axis/|axis| by minus the angle for every vector, non-zero axis and angle; length and "
-                'inner-product preservation; axis fixed; identity at 0 and 2pi; additivity; the subpoint lies on the (A, B) ellipsoid for every latitude value. '
-                'Translator self-check and implementation oracle against an independent Rodrigues formula',
+                'inner-product preservation; axis fixed; identity at 0 and 2pi; additivity; the subpoint lies on the (A, B) ellipsoid for every latitude value; the '
+                'geodetic-latitude loop regenerated from source is a contraction (factor 0.0069, Coquelicot MVT) for every point off the polar axis and on or outside '
+                'the ellipsoid, so its np.allclose exit is taken by the fourth comparison (termination), and from the exit test alone the point is within 1 m of the '
+                "line through its subpoint along the ellipsoid's unit normal there (the property's 1 m clause, proved). Translator self-check and implementation oracle"
+                ' against an independent Rodrigues formula',
         "design_ref": 'DESIGN.md 5/C14',
         "note": 'trusted: Coq kernel, stdlib real axioms, translator (self-checked each run in binary64 and by Coq-Interval). Shape/broadcast semantics, the 1 m normal'
                 ' distance, geodetic_lat termination and binary64 rounding at 1e-9 are sampled',
